@@ -582,3 +582,123 @@ Proof.
   intro H. rewrite dtlz2_norm. unfold dtlz_g2. norm_dec. numR.
   rewrite Rsum_map_zero; [ring|]. intros a Ha. rewrite Forall_forall in H. rewrite (H a Ha). lra.
 Qed.
+
+
+(* ---- list-of-rows matrices over R: enough linear algebra to state the contract of numpy.linalg.inv as a
+   matrix equation (Minv . M = I) and derive what the rotate decorator feeds the wrapped function ---- *)
+Definition dotR (r v : list R) : R := Rsum (map (fun p => fst p * snd p) (zip r v)).
+Definition vadd (u v : list R) : list R := map2 Rplus u v.
+Definition vscale (a : R) (u : list R) : list R := map (Rmult a) u.
+(* sum_i r_i * B_i  (rows of length n) *)
+Fixpoint lincomb (r : list R) (B : list (list R)) (n : nat) : list R :=
+  match r, B with
+  | a :: r', row :: B' => vadd (vscale a row) (lincomb r' B' n)
+  | _, _ => repeat 0 n
+  end.
+Definition matmul (A B : list (list R)) (n : nat) : list (list R) := map (fun r => lincomb r B n) A.
+Definition identity (n : nat) : list (list R) :=
+  map (fun i => map (fun j => if Nat.eqb i j then 1 else 0) (seq 0 n)) (seq 0 n).
+
+Lemma fold_left_Rplus l acc : fold_left Rplus l acc = acc + Rsum l.
+Proof. revert acc; induction l as [|x l IH]; intro acc; cbn; [unfold Rsum; cbn; ring|]. rewrite IH. unfold Rsum. cbn. ring. Qed.
+
+Lemma dotv_dotR r v : @dotv R NumR r v = dotR r v.
+Proof. unfold dotv, dotR. numR. rewrite fold_left_Rplus. ring. Qed.
+
+Lemma matvec_dotR (M : list (list R)) v : matvec M v = map (fun r => dotR r v) M.
+Proof. unfold matvec. apply map_ext. intro r. apply dotv_dotR. Qed.
+
+Lemma dotR_nil_l v : dotR [] v = 0. Proof. reflexivity. Qed.
+Lemma dotR_nil_r r : dotR r [] = 0. Proof. destruct r; reflexivity. Qed.
+Lemma dotR_cons a r b v : dotR (a :: r) (b :: v) = a * b + dotR r v.
+Proof. unfold dotR, Rsum. cbn. reflexivity. Qed.
+
+Lemma dotR_vadd u : forall v y, length u = length v -> dotR (vadd u v) y = dotR u y + dotR v y.
+Proof.
+  induction u as [|a u IH]; intros [|b v] y H; cbn in H; try lia.
+  - unfold vadd, dotR, Rsum. cbn. ring.
+  - destruct y as [|c y]; [rewrite !dotR_nil_r; ring|].
+    unfold vadd. cbn [map2]. rewrite !dotR_cons. fold (vadd u v). rewrite IH by lia. ring.
+Qed.
+
+Lemma dotR_vscale a u : forall y, dotR (vscale a u) y = a * dotR u y.
+Proof.
+  induction u as [|b u IH]; intro y; [unfold vscale, dotR, Rsum; cbn; ring|].
+  destruct y as [|c y]; [rewrite !dotR_nil_r; ring|]. unfold vscale. cbn [map]. rewrite !dotR_cons.
+  fold (vscale a u). rewrite IH. ring.
+Qed.
+
+Lemma dotR_zeros n y : dotR (repeat 0 n) y = 0.
+Proof.
+  revert y; induction n as [|n IH]; intro y; [reflexivity|]. destruct y as [|c y]; [apply dotR_nil_r|].
+  cbn [repeat]. rewrite dotR_cons, IH. ring.
+Qed.
+
+Lemma lincomb_length r : forall B n, Forall (fun row => length row = n) B -> length (lincomb r B n) = n.
+Proof.
+  induction r as [|a r IH]; intros B n HB; [cbn; apply repeat_length|].
+  destruct B as [|row B]; [cbn; apply repeat_length|]. inversion HB; subst.
+  cbn [lincomb]. unfold vadd. rewrite map2_length. unfold vscale. rewrite map_length, IH by assumption. apply Nat.min_id.
+Qed.
+
+(* associativity: (r . B) . y = r . (B y) *)
+Lemma dotR_lincomb r : forall B n y, Forall (fun row => length row = n) B ->
+  dotR (lincomb r B n) y = dotR r (map (fun row => dotR row y) B).
+Proof.
+  induction r as [|a r IH]; intros B n y HB; [cbn; apply dotR_zeros|].
+  destruct B as [|row B]; [cbn [lincomb map]; rewrite dotR_zeros, dotR_nil_r; reflexivity|].
+  inversion HB; subst. cbn [lincomb map]. rewrite dotR_cons.
+  rewrite dotR_vadd by (unfold vscale; rewrite map_length, lincomb_length by assumption; reflexivity).
+  rewrite dotR_vscale, IH by assumption. reflexivity.
+Qed.
+
+Lemma matvec_matmul (A B : list (list R)) n y : Forall (fun row => length row = n) B ->
+  matvec (matmul A B n) y = matvec A (matvec B y).
+Proof.
+  intro HB. rewrite !matvec_dotR. unfold matmul. rewrite map_map. apply map_ext. intro r.
+  apply dotR_lincomb. exact HB.
+Qed.
+
+Lemma dotR_unit i : forall m k y, length y = m ->
+  dotR (map (fun j => if Nat.eqb i j then 1 else 0) (seq k m)) y = if (k <=? i)%nat && (i <? k + m)%nat then nth (i - k) y 0 else 0.
+Proof.
+  induction m as [|m IH]; intros k y Hy.
+  - change (dotR [] y = if (k <=? i)%nat && (i <? k + 0)%nat then nth (i - k) y 0 else 0).
+    destruct ((k <=? i)%nat && (i <? k + 0)%nat) eqn:E; [|reflexivity].
+    apply andb_true_iff in E. rewrite Nat.leb_le, Nat.ltb_lt in E. lia.
+  - destruct y as [|c y]; [cbn in Hy; lia|]. cbn [seq map]. rewrite dotR_cons, IH by (cbn in Hy; lia).
+    destruct ((S k <=? i)%nat && (i <? S k + m)%nat) eqn:E1; destruct ((k <=? i)%nat && (i <? k + S m)%nat) eqn:E2;
+      try (apply andb_true_iff in E1; rewrite Nat.leb_le, Nat.ltb_lt in E1);
+      try (apply andb_true_iff in E2; rewrite Nat.leb_le, Nat.ltb_lt in E2);
+      try (apply andb_false_iff in E1; rewrite Nat.leb_gt, Nat.ltb_ge in E1);
+      try (apply andb_false_iff in E2; rewrite Nat.leb_gt, Nat.ltb_ge in E2);
+      destruct (Nat.eqb_spec i k) as [Ek|Ek]; try lia.
+    + replace (i - k)%nat with (S (i - S k)) by lia. cbn [nth]. ring.
+    + subst i. rewrite Nat.sub_diag. cbn [nth]. ring.
+    + ring.
+Qed.
+
+Lemma map_nth_seq {A} (y : list A) d : map (fun i => nth i y d) (seq 0 (length y)) = y.
+Proof.
+  induction y as [|c y IH]; [reflexivity|]. cbn [length seq map nth]. f_equal.
+  rewrite <- seq_shift, map_map. exact IH.
+Qed.
+
+Lemma matvec_identity y : matvec (identity (length y)) y = y.
+Proof.
+  rewrite matvec_dotR. unfold identity. rewrite map_map.
+  transitivity (map (fun i => nth i y 0) (seq 0 (length y))); [|apply map_nth_seq]. apply map_ext_in. intros i Hi. apply in_seq in Hi.
+  rewrite dotR_unit by reflexivity. destruct (Nat.leb_spec 0 i); [|lia]. destruct (Nat.ltb_spec i (0 + length y)); [|lia].
+  cbn [andb]. rewrite Nat.sub_0_r. reflexivity.
+Qed.
+
+(* rotate: the decorator stores Minv = numpy.linalg.inv(M) and feeds matvec Minv x.  Under the contract of inv,
+   Minv . M = I (as n x n matrices), the wrapped function receives exactly the y with M y = x, i.e. M^-1 x. *)
+Theorem rotate_feeds_matrix (M Minv : list (list R)) (x y : list R) :
+  Forall (fun row => length row = length y) M ->
+  matmul Minv M (length y) = identity (length y) ->
+  matvec M y = x -> spec_rotate_arg Minv x = y.
+Proof.
+  intros HM Hinv <-. unfold spec_rotate_arg.
+  rewrite <- matvec_matmul with (n := length y) by exact HM. rewrite Hinv. apply matvec_identity.
+Qed.
